@@ -836,6 +836,292 @@ fn run_case(scratch: &Path, c: &Case, plant: Plant) -> Out {
 }
 
 // ---------------------------------------------------------------------------
+// long run: the SAME prepared INSERT executed hundreds / thousands of times
+// ---------------------------------------------------------------------------
+/// Key shapes of the long run.  The wide TEXT keys make an index leaf hold only a few dozen entries, so
+/// that the index root splits and the new right-most leaf fills up again (several times) within a few
+/// hundred executions; the INT shapes need > 1000 executions for the same.
+#[derive(Clone, Copy, PartialEq, Eq, Hash, Debug, PartialOrd, Ord)]
+enum Shape {
+    Int,
+    BigInt,
+    Text200,
+    Text60,
+}
+const SHAPES: [Shape; 4] = [Shape::Int, Shape::BigInt, Shape::Text200, Shape::Text60];
+impl Shape {
+    fn name(self) -> &'static str {
+        match self {
+            Shape::Int => "int-key",
+            Shape::BigInt => "bigint-key",
+            Shape::Text200 => "text200-key",
+            Shape::Text60 => "text60-key",
+        }
+    }
+    fn parse(s: &str) -> Option<Shape> {
+        SHAPES.iter().copied().find(|a| a.name() == s)
+    }
+    fn sql_type(self) -> &'static str {
+        match self {
+            Shape::Int => "INT",
+            Shape::BigInt => "BIGINT",
+            Shape::Text200 | Shape::Text60 => "TEXT",
+        }
+    }
+    /// the i-th key (i = 1..): strictly increasing in the index order
+    fn key(self, i: usize) -> OwnedValue {
+        match self {
+            Shape::Int => OwnedValue::Int(1000 + i as i64),
+            Shape::BigInt => OwnedValue::Int(5_000_000_000 + i as i64),
+            Shape::Text200 => OwnedValue::Text(format!("k{:0>199}", i)),
+            Shape::Text60 => OwnedValue::Text(format!("k{:0>59}", i)),
+        }
+    }
+    fn key_lit(self, i: usize) -> String {
+        match self.key(i) {
+            OwnedValue::Int(k) => k.to_string(),
+            OwnedValue::Text(t) => format!("'{t}'"),
+            _ => unreachable!(),
+        }
+    }
+    /// run lengths tried (ascending) when a failing long run is minimised; the last one is the thorough length
+    fn ladder(self) -> &'static [usize] {
+        match self {
+            Shape::Int | Shape::BigInt => &[2, 64, 300, 700, 1100, 1500, 2000, 3000],
+            Shape::Text200 => &[2, 30, 60, 90, 130, 200, 300, 400, 600],
+            Shape::Text60 => &[2, 64, 150, 250, 400, 600, 900, 1500],
+        }
+    }
+}
+
+/// One long run: twin A executes ONE prepared `INSERT INTO t VALUES (?, ?)` n times with increasing keys
+/// (api prepared-execute: bind + execute; api insert_cached: first execution through the statement, the
+/// rest through `insert_cached` with the statement's cached plan), twin B one INSERT statement per row.
+/// Increasing keys only: any other order already fails at two rows (KF-C43-09).
+#[derive(Clone, PartialEq, Eq, Hash, Debug, PartialOrd, Ord)]
+struct LongCase {
+    api: Api,
+    /// Pk | Unique (SecIdx is accepted by replay only)
+    kind: Kind,
+    shape: Shape,
+    n: usize,
+}
+impl LongCase {
+    fn ddl(&self) -> Vec<String> {
+        let ty = self.shape.sql_type();
+        match self.kind {
+            Kind::Unique => vec![format!("CREATE TABLE t (k {ty} UNIQUE, v INT)")],
+            Kind::SecIdx => vec![format!("CREATE TABLE t (k {ty}, v INT)"), "CREATE INDEX ik ON t (k)".to_string()],
+            _ => vec![format!("CREATE TABLE t (k {ty} PRIMARY KEY, v INT)")],
+        }
+    }
+    fn json(&self) -> Value {
+        json!({"long-run": true, "api": self.api.name(), "kind": self.kind.name(), "shape": self.shape.name(), "n": self.n, "ddl": self.ddl(),
+               "history": format!("prepare INSERT INTO t VALUES (?, ?); execute it {} times with keys {} .. (twin B: one INSERT statement per row); compare COUNT(*), scan count, SELECT *, `WHERE k = <key>` for EVERY key, duplicate-key probes", self.n, self.shape.key_lit(1))})
+    }
+    fn from_json(v: &Value) -> Option<LongCase> {
+        Some(LongCase { api: Api::parse(v["api"].as_str()?)?, kind: Kind::parse(v["kind"].as_str()?)?, shape: Shape::parse(v["shape"].as_str()?)?, n: v["n"].as_u64()? as usize })
+    }
+}
+
+struct LongOut {
+    viol: Option<Viol>,
+    execs: u64,
+    cached_execs: u64,
+    lookups: u64,
+    index_plan: bool,
+    rows_loaded: u64,
+}
+
+fn run_long(scratch: &Path, c: &LongCase) -> LongOut {
+    let mut out = LongOut { viol: None, execs: 0, cached_execs: 0, lookups: 0, index_plan: false, rows_loaded: 0 };
+    let harness = |e: String| Viol { step: "setup", layer: "harness".into(), expected: "setup succeeds".into(), observed: e };
+    let (ta, tb) = match (TestDb::create(scratch, "LA"), TestDb::create(scratch, "LB")) {
+        (Ok(a), Ok(b)) => (a, b),
+        _ => {
+            out.viol = Some(harness("create failed".into()));
+            return out;
+        }
+    };
+    for d in c.ddl() {
+        let (ra, rb) = (ta.exec(&d), tb.exec(&d));
+        if !ra.ok() || !rb.ok() {
+            out.viol = Some(harness(format!("{d}: {} / {}", ra.show(), rb.show())));
+            return out;
+        }
+    }
+    let (da, db) = (ta.db(), tb.db());
+    let stmt = match vcore::catch(|| da.prepare("INSERT INTO t VALUES (?, ?)").map_err(|e| format!("{e:#}"))) {
+        Ok(Ok(p)) => p,
+        o => {
+            out.viol = Some(harness(format!("prepare: {o:?}")));
+            return out;
+        }
+    };
+    let exec_a = |i: usize, v: i64, out: &mut LongOut| -> Cls {
+        out.execs += 1;
+        let plan = vcore::catch(|| stmt.cached_insert_plan()).unwrap_or(None);
+        if plan.is_some() {
+            out.cached_execs += 1;
+        }
+        if let (Api::Cached, Some(plan)) = (c.api, &plan) {
+            let params = vec![c.shape.key(i), OwnedValue::Int(v)];
+            return call(|| da.insert_cached(plan, &params), |n| n as u64);
+        }
+        call(
+            || stmt.bind(c.shape.key(i)).bind(OwnedValue::Int(v)).execute(da),
+            |x| match x {
+                turdb::ExecuteResult::Insert { rows_affected, .. } => rows_affected as u64,
+                _ => 0,
+            },
+        )
+    };
+    // load
+    for i in 1..=c.n {
+        let v = i as i64 * 3;
+        let ca = exec_a(i, v, &mut out);
+        let sql = format!("INSERT INTO t VALUES ({}, {v})", c.shape.key_lit(i));
+        let cb = cls_of_res(&exec(db, &sql));
+        if let Cls::Ok(_) = cb {
+            out.rows_loaded += 1;
+        }
+        if ca.name() != cb.name() {
+            out.viol = Some(Viol { step: "long-run", layer: "error-class".into(), expected: format!("execution {i} of the prepared INSERT: {} like INSERT INTO t VALUES (<key {i}>, {v})", cb.show()), observed: ca.show() });
+            return out;
+        }
+    }
+    // state
+    let cmp = |q: &str, layer: &str| -> Option<Viol> {
+        let (ra, rb) = (norm_rows(exec(da, q)), norm_rows(exec(db, q)));
+        if same(&ra, &rb) {
+            None
+        } else {
+            Some(Viol { step: "long-run", layer: layer.to_string(), expected: format!("{} on the INSERT twin = {}", vcore::util::clip(q, 120), vcore::util::clip(&rb.show(), 300)), observed: vcore::util::clip(&ra.show(), 300) })
+        }
+    };
+    let ll = c.kind.lookup_layer();
+    for (q, layer) in [("SELECT COUNT(*) FROM t", "count"), ("SELECT COUNT(*) FROM t WHERE v >= 0", "scan-count"), ("SELECT * FROM t", "rows")] {
+        if let Some(v) = cmp(q, layer) {
+            out.viol = Some(v);
+            return out;
+        }
+    }
+    if let Some(p) = explain(da, &format!("SELECT * FROM t WHERE k = {}", c.shape.key_lit(1))) {
+        out.index_plan = p.contains("IndexScan");
+    }
+    // EVERY key through the index
+    for i in 0..=c.n + 1 {
+        out.lookups += 1;
+        if let Some(mut v) = cmp(&format!("SELECT * FROM t WHERE k = {}", c.shape.key_lit(i)), ll) {
+            v.expected = format!("key {i} of {}: {}", c.n, v.expected);
+            out.viol = Some(v);
+            return out;
+        }
+    }
+    // uniqueness still enforced for old and recent keys, by both paths
+    let mut probes = vec![1, c.n / 4, c.n / 2, c.n * 3 / 4, c.n.saturating_sub(1), c.n];
+    probes.retain(|i| *i >= 1);
+    probes.dedup();
+    for i in probes {
+        let ca = exec_a(i, 0, &mut out);
+        let sql = format!("INSERT INTO t VALUES ({}, 0)", c.shape.key_lit(i));
+        let cb = cls_of_res(&exec(db, &sql));
+        let ca2 = cls_of_res(&exec(da, &sql));
+        if ca.name() != cb.name() || ca2.name() != cb.name() {
+            out.viol = Some(Viol { step: "dup-probe", layer: "following-insert".into(), expected: format!("a second row with key {i} of {}: {} like on the INSERT twin", c.n, cb.show()), observed: format!("prepared: {} / INSERT statement: {}", ca.show(), ca2.show()) });
+            return out;
+        }
+    }
+    for (q, layer) in [("SELECT COUNT(*) FROM t", "count"), ("SELECT COUNT(*) FROM t WHERE v >= 0", "scan-count")] {
+        if let Some(mut v) = cmp(q, layer) {
+            v.step = "dup-probe";
+            out.viol = Some(v);
+            return out;
+        }
+    }
+    out
+}
+
+fn long_signature(c: &LongCase, v: &Viol) -> String {
+    let step = if v.step != "long-run" { format!("@{}", v.step) } else { String::new() };
+    format!("C43/long-run/{}/{}/{}:seq-size>={}{}/{}", c.api.name(), c.kind.name(), c.shape.name(), c.n, step, v.layer)
+}
+
+/// smallest run length of the shape's ladder that fails in the same (step, layer)
+fn shrink_long(scratch: &Path, c: &LongCase, v: &Viol) -> (LongCase, Viol) {
+    for &n in c.shape.ladder().iter().filter(|n| **n < c.n) {
+        let cand = LongCase { n, ..c.clone() };
+        if let Some(v2) = run_long(scratch, &cand).viol {
+            if v2.step == v.step && v2.layer == v.layer {
+                return (cand, v2);
+            }
+        }
+    }
+    (c.clone(), v.clone())
+}
+
+fn long_cases(ctx: &Ctx) -> Vec<LongCase> {
+    let mut v = vec![];
+    if ctx.quick() {
+        v.push(LongCase { api: Api::Prepared, kind: Kind::Pk, shape: Shape::Text200, n: 400 });
+        v.push(LongCase { api: Api::Prepared, kind: Kind::Pk, shape: Shape::Int, n: 2000 });
+    } else {
+        for api in [Api::Prepared, Api::Cached] {
+            // not the secondary index: its entries written through the cached plan are unfindable from the 2nd
+            // row on (KF-C43-09, exercised by the short histories), a long run adds nothing behind that
+            for kind in [Kind::Pk, Kind::Unique] {
+                for shape in SHAPES {
+                    v.push(LongCase { api, kind, shape, n: *shape.ladder().last().unwrap() });
+                }
+            }
+        }
+    }
+    let only_api = ctx.opt("api").and_then(Api::parse);
+    let only_kind = ctx.opt("kind").and_then(Kind::parse);
+    v.retain(|c| only_api.map(|a| a == c.api).unwrap_or(true) && only_kind.map(|k| k == c.kind).unwrap_or(true));
+    v
+}
+
+fn run_long_cases(ctx: &Ctx, rep: &mut Reporter) {
+    for (i, c) in long_cases(ctx).iter().enumerate() {
+        if !ctx.mine(7_000 + i as u64) {
+            continue;
+        }
+        if ctx.expired() {
+            rep.capped("deadline reached in the long runs");
+            return;
+        }
+        let o = run_long(&ctx.scratch, c);
+        rep.case(vcore::util::hash_of(&("long-run", c)), true);
+        rep.add_transitions(o.execs + 1);
+        rep.add_traces_validated(1);
+        rep.count("long-run histories", 1);
+        rep.count("long-run prepared executions", o.execs);
+        rep.count("long-run executions on the cached plan", o.cached_execs);
+        rep.count("long-run key lookups compared", o.lookups);
+        rep.count("rows_loaded", o.rows_loaded);
+        if o.index_plan {
+            rep.count("long-run lookups planned as IndexScan", 1);
+        }
+        rep.sample(|| c.json());
+        match &o.viol {
+            None => {
+                rep.add_states(o.execs);
+                rep.outcome(&format!("long-run/{}/{}/{}: equal", c.api.name(), c.kind.name(), c.shape.name()));
+            }
+            Some(v) if v.layer == "harness" => rep.note(&format!("harness problem in long run {:?}: {}", c, v.observed)),
+            Some(v) => {
+                rep.pruned(1);
+                rep.outcome(&format!("long-run/{}/{}/{}: differs at {} ({})", c.api.name(), c.kind.name(), c.shape.name(), v.step, v.layer));
+                let (mc, mv) = shrink_long(&ctx.scratch, c, v);
+                let sig = long_signature(&mc, &mv);
+                rep.violation("C43", &mv.layer, &sig, || mc.json(), &mv.expected, &mv.observed);
+            }
+        }
+    }
+}
+
+// ---------------------------------------------------------------------------
 // shrinking + signature
 // ---------------------------------------------------------------------------
 /// `<placement>:<batch class>[@<step>]` of a (minimal) case; one class only: the first that applies of
@@ -1134,7 +1420,7 @@ impl Check for C43 {
         rep.bound("apis", json!(APIS.iter().map(|a| a.name()).collect::<Vec<_>>()));
         rep.bound("table kinds", json!(KINDS.iter().map(|k| k.ddl()).collect::<Vec<_>>()));
         rep.bound("cases", json!(cases.len()));
-        for c in ["rows_loaded", "plan:index", "api-calls:cached-plan", "fully-compared histories", "second-look histories fully compared", "err:primary-key", "err:unique", "err:not-null"] {
+        for c in ["rows_loaded", "plan:index", "api-calls:cached-plan", "fully-compared histories", "second-look histories fully compared", "err:primary-key", "err:unique", "err:not-null", "long-run histories", "long-run executions on the cached plan", "long-run key lookups compared", "long-run lookups planned as IndexScan"] {
             rep.expect_nonzero(c);
         }
         if ctx.opt("dry").is_some() {
@@ -1146,6 +1432,14 @@ impl Check for C43 {
                     rep.count(&format!("dry:{}", match &c.batch { BatchSpec::Explicit(b) => format!("explicit-len{}", b.len()), BatchSpec::Gen { n, .. } => format!("gen-{n}") }), 1);
                 }
             }
+            return;
+        }
+        rep.bound("long runs (one prepared INSERT executed n times, increasing keys)", json!(long_cases(ctx).iter().map(|c| format!("{}/{}/{}/n={}", c.api.name(), c.kind.name(), c.shape.name(), c.n)).collect::<Vec<_>>()));
+        if ctx.opt("no-long").is_none() {
+            // few, each on its own worker, first: a capped run still carries them
+            run_long_cases(ctx, rep);
+        }
+        if ctx.opt("only-long").is_some() {
             return;
         }
         let mut sh = Shrinker { scratch: &ctx.scratch, plant, sizes: szs.clone(), cache: BTreeMap::new(), runs: 0 };
@@ -1230,6 +1524,22 @@ impl Check for C43 {
     }
 
     fn replay(&self, ctx: &Ctx, case: &Value, rep: &mut Reporter) {
+        if case["long-run"].as_bool() == Some(true) {
+            let Some(c) = LongCase::from_json(case) else {
+                rep.note("replay: unreadable long-run case");
+                return;
+            };
+            let o = run_long(&ctx.scratch, &c);
+            rep.case(vcore::util::hash_of(&("long-run", &c)), true);
+            rep.add_states(o.execs);
+            rep.add_transitions(o.execs + 1);
+            rep.add_traces_validated(1);
+            if let Some(v) = o.viol {
+                let sig = long_signature(&c, &v);
+                rep.violation("C43", &v.layer, &sig, || c.json(), &v.expected, &v.observed);
+            }
+            return;
+        }
         let Some(c) = Case::from_json(case) else {
             rep.note("replay: unreadable case");
             return;
